@@ -40,6 +40,13 @@ func runR2d(c *Ctx, s *r2State) {
 				return true
 			}
 			n++
+			// outside package broadcast every section is entered synchronously: the effect of
+			// HoldLockMaybeAsync may happen after the caller returned
+			if RelPkg(d.Pkg.PkgPath) != "broadcast" {
+				s.note("R2d", sprintf("%s/section-callback#%d/entered-synchronously", core.FuncName(d.Obj), n), call.Pos(), name == "HoldLockMaybeAsync",
+					"the critical section runs before the call that enters it returns (HoldLock / TryHoldLock / Wait)",
+					"the section is entered with HoldLockMaybeAsync: when the lock is contended its body runs on another goroutine after the enclosing function returned, so the function's effect is not in place when it returns and two calls from one goroutine can take effect in either order", nil)
+			}
 			var params []types.Object
 			for _, f := range lit.Type.Params.List {
 				for _, nm := range f.Names {
@@ -371,6 +378,7 @@ func (s *r2State) interruptPath(d *core.FuncDecl, ctxP *types.Var, chans []*type
 	ctxArm := false      // the select arm taken last was the ctx.Done() arm
 	cancelArm := false   // … was the arm on a cancel-channel parameter
 	var cbErr *types.Var // error returned by a client callback parameter of this function
+	cbErrIdx := -1       // … and the event that assigned it last
 	pvs := paramVars(d)
 	for i, ev := range p.Events {
 		// err returned by a client callback parameter (possibly called inside a section literal)
@@ -380,7 +388,7 @@ func (s *r2State) interruptPath(d *core.FuncDecl, ctxP *types.Var, chans []*type
 					for _, q := range pvs {
 						if q == fv {
 							if lv := identVar(ev.Lhs, ev.Frame); lv != nil && isErrorType(lv.Type()) {
-								cbErr = lv
+								cbErr, cbErrIdx = lv, i
 							}
 						}
 					}
@@ -402,7 +410,7 @@ func (s *r2State) interruptPath(d *core.FuncDecl, ctxP *types.Var, chans []*type
 						for _, q := range pvs {
 							if q == fv {
 								if lv := identVar(ev.Lhs, ev.Frame); lv != nil && isErrorType(lv.Type()) {
-									cbErr = lv
+									cbErr, cbErrIdx = lv, i
 								}
 							}
 						}
@@ -553,6 +561,20 @@ func (s *r2State) interruptPath(d *core.FuncDecl, ctxP *types.Var, chans []*type
 					s.note("R17", name+"/nil-only-without-callback-error", ev.Pos, !ok,
 						"nil is returned only when the client callback's error is known to be nil",
 						"nil is returned on a path that has not excluded a non-nil error from the client callback: the callback's error is dropped", p)
+				} else if rt != nil && isErrorType(rt) && identVar(last, ev.Frame) != cbErr {
+					// any other error (context.Canceled …) replaces the callback's verdict only when the
+					// callback's error — as assigned last — is known to be nil
+					g := prepare(c, p)
+					var since []*r2Lit
+					for j := cbErrIdx + 1; j < i; j++ {
+						if g.lits[j] != nil {
+							since = append(since, g.lits[j])
+						}
+					}
+					ok, _ := implies(since, eq("nil", c.Role(cbErr)))
+					s.note("R17", name+"/callback-error-returned-unchanged", ev.Pos, !ok,
+						"an error other than the client callback's is returned only when the callback's error (as assigned last) is known to be nil",
+						"the function returns "+core.ExprString(last)+" on a path on which the client callback has just reported an error that was not examined: the callback's error is replaced", p)
 				}
 			}
 			if ctxArm && len(ev.Results) > 0 {
